@@ -221,6 +221,18 @@ FT std_like_round(FT v) {
 // (returns -1 if the coordinate is outside and the mode is constant/ignore)
 template <typename FT>
 FT map_coordinate(FT in, const npy_intp len, const int mode) {
+    // a coordinate too large for the integer arithmetic below is first reduced
+    // by the period of the boundary mode (fmod is exact, so the result is unchanged)
+    if (len > 1 && (in > FT(4503599627370496.0) || in < FT(-4503599627370496.0))) {
+        npy_intp period = 0;
+        switch (mode) {
+            case ExtendMirror: period = 2 * len - 2; break;
+            case ExtendReflect: period = 2 * len; break;
+            case ExtendWrap: period = len - 1; break;
+            default: break;
+        }
+        if (period) in = std::fmod(in, FT(period));
+    }
     if (in < 0) {
         switch (mode) {
             case ExtendMirror:
@@ -306,6 +318,11 @@ void zoom_shift(const numpy::aligned_array<FT> array, PyArrayObject* zoom_ar,
     const int rank = array.ndims();
     assert(!shift_ar || PyArray_DIM(shift_ar, 0) >= rank);
     assert(!zoom_ar || PyArray_DIM(zoom_ar, 0) >= rank);
+    for (int r = 0; r < rank; ++r) {
+        if ((shifts && !std::isfinite(shifts[r])) || (zooms && !std::isfinite(zooms[r]))) {
+            throw PythonException(PyExc_ValueError, "mahotas.zoom_shift: zoom and shift values must be finite");
+        }
+    }
 
     std::vector< std::vector<bool> > zeros;
     /* if the mode is 'constant' we need some temps later: */
@@ -492,7 +509,7 @@ PyObject* py_zoom_shift(PyObject* self, PyObject* args) {
     } else if (!numpy::equiv_typenums(zooms, array)) {
         PyErr_SetString(PyExc_RuntimeError, "mahotas.zoom_shift: zooms does not have an equivalent type to array");
         return NULL;
-    } else if (PyArray_DIM(zooms, 0) != PyArray_NDIM(array)) {
+    } else if (PyArray_NDIM(zooms) != 1 || PyArray_DIM(zooms, 0) != PyArray_NDIM(array)) {
         PyErr_SetString(PyExc_ValueError, "mahotas.zoom_shift: zoom array must have one entry for each dimension");
         return NULL;
     }
@@ -502,7 +519,7 @@ PyObject* py_zoom_shift(PyObject* self, PyObject* args) {
     } else if (!PyArray_ISCARRAY(shifts) || !numpy::equiv_typenums(shifts, array)) {
         PyErr_SetString(PyExc_RuntimeError, "mahotas.zoom_shift: shifts is not in the expected format, expected a c-array with an equivalent type to array");
         return NULL;
-    } else if (PyArray_DIM(shifts, 0) != PyArray_NDIM(array)) {
+    } else if (PyArray_NDIM(shifts) != 1 || PyArray_DIM(shifts, 0) != PyArray_NDIM(array)) {
         PyErr_SetString(PyExc_ValueError, "mahotas.zoom_shift: shift array must have one entry for each dimension");
         return NULL;
     }
